@@ -252,8 +252,8 @@ PROPS["C14"] = dict(
 )
 PROPS["C20"] = dict(
     title="native-interpreter overrides are dispatched exactly and fall back safely",
-    quick=[G("M_NATIVE"), G("M_NATIVE", cfg="M_NATIVE_pre"), dict(kind="R", gen="native-history", n=60, len=30)],
-    thorough=[G("M_NATIVE"), G("M_NATIVE", cfg="M_NATIVE_pre"), dict(kind="R", gen="native-history", n=1500, len=40)],
+    quick=[G("M_NATIVE"), G("M_NATIVE", cfg="M_NATIVE_pre"), G("M_NATIVE", cfg="M_NATIVE_swap"), dict(kind="R", gen="native-history", n=60, len=30)],
+    thorough=[G("M_NATIVE"), G("M_NATIVE", cfg="M_NATIVE_pre"), G("M_NATIVE", cfg="M_NATIVE_swap"), dict(kind="R", gen="native-history", n=1500, len=40)],
     own=[parts("Outcome", "ErrClass", "Data", "Base", "CrossFire", "NotDispatched", "NoCrash")],
     design_ref="DESIGN.md 6 C20",
     level_text="Every subset of a registration menu (anagram pairs, the same text for another table and another expression kind, an updater) x "
